@@ -552,6 +552,9 @@ def OpOK : Op → Prop
   | .add h => h.hash ≠ 0
   | _ => True
 
+instance : DecidablePred OpOK := fun o => by
+  cases o <;> unfold OpOK <;> infer_instance
+
 theorem WF_step {st : St} (hwf : WF st) (o : Op) (ho : OpOK o) : WF (step st o).1 := by
   cases o with
   | add h =>
@@ -756,5 +759,88 @@ theorem Src_reachable (l : Nat) (ops : List Op) : SrcE ops (run l ops) ∧ SrcC 
     (fun pre s o ih => Src_step o ih) ops [] (St.init l)
     ⟨by intro e es x hl; simp [St.init, lookup] at hl, by intro e es x hl; simp [St.init, lookup] at hl⟩
   simpa [run] using this
+
+/-! ### the property over all histories -/
+
+/-- the hypotheses `Consistent`/`HdrOK` hold for every imported header of a well-formed state -/
+theorem C26_imported_header_ok {st : St} (hwf : WF st) {x : Hdr} (hx : x ∈ st.imported) :
+    Consistent st x ∧ HdrOK st x :=
+  ⟨fun y hy => by rw [hwf.uniq x hx] at hy; exact (Option.some.inj hy).symm, hwf.num x hx⟩
+
+/-- **own fork, all histories**: any in-memory epoch data returned for `hdr` after any sequence of imports,
+    announcements, persisted definitions and restarts was announced (`HandleBABEDigest`) by `hdr` itself or by
+    one of its ancestors. -/
+theorem C26_own_fork_history (l : Nat) (ops : List Op) (hdr : Hdr) (hc : Consistent (run l ops) hdr)
+    (e : Nat) (c : Entries) (h : getEpochDataRaw (run l ops) e hdr = .mem c) :
+    c ≠ [] ∧ ∀ x ∈ c, Anc (run l ops) x.1 hdr ∧ ∃ b, Op.ann b x.2 ∈ ops ∧ b.hash = x.1 := by
+  obtain ⟨hne, es, hl, hall⟩ := C26_own_fork hc h
+  exact ⟨hne, fun x hx => ⟨(hall x hx).2, (Src_reachable l ops).1 e es x hl (hall x hx).1⟩⟩
+
+/-- the same for the configuration -/
+theorem C26_config_own_fork_history (l : Nat) (ops : List Op) (hops : ∀ o ∈ ops, OpOK o) (hdr : Hdr)
+    (hc : Consistent (run l ops) hdr) (hok : HdrOK (run l ops) hdr)
+    (e : Nat) (c : Entries) (h : getConfigData (run l ops) hdr e = .mem c) :
+    c ≠ [] ∧ ∀ x ∈ c, Anc (run l ops) x.1 hdr ∧ ∃ b, Op.cfg b x.2 ∈ ops ∧ b.hash = x.1 := by
+  have := C26_config_latest_earlier (C26_wf_reachable l ops hops) hc hok e
+  rw [h] at this
+  obtain ⟨hne, e', es, _, _, _, hl, hall, _⟩ := this
+  exact ⟨hne, fun x hx => ⟨(hall x hx).2, (Src_reachable l ops).2 e' es x hl (hall x hx).1⟩⟩
+
+/-- **prompt, all histories**: no lookup hangs, for any header whose number fits its parent's -/
+theorem C26_prompt_history (l : Nat) (ops : List Op) (hops : ∀ o ∈ ops, OpOK o) (hdr : Hdr)
+    (hok : HdrOK (run l ops) hdr) (e : Nat) :
+    getEpochDataRaw (run l ops) e hdr ≠ .timeout ∧ getConfigData (run l ops) hdr e ≠ .timeout :=
+  C26_never_hangs (C26_wf_reachable l ops hops) hok e
+
+/-! ### the loop before the repair, and concrete (non-vacuous) instances -/
+
+def wA1 : Hdr := { hash := 2, parent := 1, number := 1, slot := 10 }
+def wA2 : Hdr := { hash := 3, parent := 2, number := 2, slot := 11 }
+def wA3 : Hdr := { hash := 4, parent := 3, number := 3, slot := 12 }
+def wB2 : Hdr := { hash := 5, parent := 2, number := 2, slot := 11 }
+/-- chain g ← a1 ← a2 ← a3, sibling b2 of a2 announces epoch data 7 and config 9 -/
+def wOps : List Op := [.add wA1, .add wA2, .add wA3, .add wB2, .ann wB2 7, .cfg wB2 9]
+def wSt : St := run 200 wOps
+
+def wLit : St :=
+  { epochLen := 200, imported := [genesis, wA1, wA2, wA3, wB2], nextEpoch := [(1, [(5, 7)])],
+    nextConfig := [(1, [(5, 9)])], dbEpoch := [], dbConfig := [] }
+
+theorem wSt_eq : wSt = wLit := by rfl
+
+theorem old_loop_at_a1 : ∀ fuel, findAncOld wSt [(5, 7)] wA2 fuel wA1 = .outOfFuel
+  | 0 => rfl
+  | fuel + 1 => by
+    have h1 : [((5 : Nat), (7 : Nat))].filter (hit wSt wA1.hash) = [] := by rw [wSt_eq]; decide
+    have h2 : getHeader wSt wA2.parent = some wA1 := by rw [wSt_eq]; decide
+    unfold findAncOld
+    simp only [h1, h2, ne_eq, not_true_eq_false, if_false]
+    have h3 : wA1.parent ≠ 0 := by decide
+    simp only [h3, if_false]
+    exact old_loop_at_a1 fuel
+
+/-- **the defect that was repaired**: with `GetHeader(header.ParentHash)` the loop never ends for block a2 of
+    the witness (no amount of fuel suffices), i.e. `C26_terminates` was false for the code as found. -/
+theorem C26_old_loop_diverges : ∀ fuel, findAncOld wSt [(5, 7)] wA2 fuel wA2 = .outOfFuel
+  | 0 => rfl
+  | fuel + 1 => by
+    have h1 : [((5 : Nat), (7 : Nat))].filter (hit wSt wA2.hash) = [] := by rw [wSt_eq]; decide
+    have h2 : getHeader wSt wA2.parent = some wA1 := by rw [wSt_eq]; decide
+    unfold findAncOld
+    simp only [h1, h2, ne_eq, not_true_eq_false, if_false]
+    have h3 : wA2.parent ≠ 0 := by decide
+    simp only [h3, if_false]
+    exact old_loop_at_a1 fuel
+
+/-- the repaired loop on the same witness: prompt failure for a2/a3, own data for b2, and the genesis
+    configuration (not an error, not b2's) for the blocks of the other fork -/
+example : getEpochDataRaw wSt 1 wA2 = .errHash := by rw [wSt_eq]; decide
+example : getEpochDataRaw wSt 1 wA3 = .errHash := by rw [wSt_eq]; decide
+example : getEpochDataRaw wSt 1 wB2 = .mem [(5, 7)] := by rw [wSt_eq]; decide
+example : getConfigData wSt wA3 1 = .gen := by rw [wSt_eq]; decide
+example : getConfigData wSt wB2 3 = .mem [(5, 9)] := by rw [wSt_eq]; decide
+example : ∀ o ∈ wOps, OpOK o := by decide
+example : Consistent wSt wA3 ∧ HdrOK wSt wA3 :=
+  C26_imported_header_ok (C26_wf_reachable 200 wOps (by decide)) (by show wA3 ∈ wSt.imported; rw [wSt_eq]; decide)
 
 end Gossamer.C26
